@@ -125,13 +125,16 @@ structure Inv where
   inp  : Option (List Nat)
   outp : Option (List Nat)
   stop : Bool
+  req  : List Nat := []        -- fingerprint of the request the handler was given
 deriving Repr, DecidableEq
 
 /-- C13 on an observed invocation log of a chain of `n` handlers started with response tags `[]`,
 and the tags of what was sent (`none` = nothing sent) -/
-def C13.holdsLog (n : Nat) (log : List Inv) (sent : Option (List Nat)) : Bool :=
+def C13.holdsLog (n : Nat) (log : List Inv) (sent : Option (List Nat)) (orig : List Nat := []) : Bool :=
   -- configured order, each at most once
   log.map (·.idx) == List.range log.length && decide (log.length ≤ n) &&
+  -- each receives the original request
+  log.all (fun a => a.req == orig) &&
   -- each receives its predecessor's response
   (log.zip (some [] :: log.map (·.outp))).all (fun (a, prev) => a.inp == prev) &&
   -- nothing runs after the first stop; the chain runs on while nobody stops
